@@ -76,7 +76,7 @@ def run(tier):
     q = tier == 'quick'
     typing_is_context_free(chk, tier)
     M = os.path.join(ROOT, 'vf/ch/gettype.py')
-    ntok, nk = (4, 9) if q else (5, 12)
+    ntok, nk = (4, 9) if q else (5, 9)
     jobs = [chrun.Job(M, 'gt', 300 if q else 2400, subst={'PART = -1': f'PART = {k}', 'NTOK = 4': f'NTOK = {ntok}', 'NK = 12': f'NK = {nk}'}, label=f'gt[first kind {k}]', twin=(k in (3, 5))) for k in range(nk)]
     jobs += [chrun.Job(M, 'gtype', 300 if q else 1200, subst={'PART = -1': f'PART = {p}'}, label=f'gtype[prefix {p}]', twin=(p == 0),
                        explain=lambda mod, a: dict(why=mod.gtype_why(*a[0]))) for p in range(7)]
